@@ -721,3 +721,80 @@ def check_c13(A: Analysis) -> Dict[str, Any]:
     types = collections.Counter(k[1] + ("_before" if k[2] else "_after") for k in got)
     return {"invocations": sum(got.values()), "combos": len(types), "rewritten": n_rewritten, "types": dict(types),
             "fills": len(A.fills), "cancels": len(A.returned_cancels)}
+
+
+# ---------------------------------------------------------------------------------------------------------------
+# C04 (simulation level)
+
+
+def check_c04_sim(A: Analysis) -> Dict[str, Any]:
+    """per-order accounting and lifetime from the log stream of a whole simulation."""
+    items = A.items
+    first_terminal: Dict[Tuple[int, int], Tuple[int, str, int, int]] = {}
+    fills = collections.defaultdict(list)
+    accept_idx = {}
+    for i, (k, kw) in enumerate(items):
+        if k not in ("log.write", "log.bulk"):
+            continue
+        l = kw["log"]
+        if isinstance(l, OrderLog):
+            key = (l.market_id, l.order_id)
+            if key in accept_idx:
+                raise Violation("C04.accepted_twice", f"order {key} accepted twice")
+            accept_idx[key] = i
+        elif isinstance(l, ExecutionLog):
+            for key in ((l.market_id, l.buy_order_id), (l.market_id, l.sell_order_id)):
+                fills[key].append((i, l.time, l.volume))
+        elif isinstance(l, CancelLog):
+            first_terminal.setdefault((l.market_id, l.order_id), (i, "cancel", l.cancel_time, l.volume))
+        elif isinstance(l, ExpirationLog):
+            first_terminal.setdefault((l.market_id, l.order_id), (i, "expiry", l.time, l.volume))
+    stats = collections.Counter()
+    final_t = A.sim.markets[0].get_time()
+    for o, snap, _ in A.returned_orders:
+        key = (o.market_id, o.order_id)
+        if key not in accept_idx:
+            raise Violation("C04.order_not_accepted", f"{snap}")
+        init = snap["volume"]
+        fl = fills.get(key, [])
+        filled = sum(v for _, _, v in fl)
+        term = first_terminal.get(key)
+        if o.volume < 0 or filled > init:
+            raise Violation("C04.overfilled", f"order {key}: accepted {init}, fills sum to {filled}")
+        if term is not None:
+            ti, what, tt, tv = term
+            before = sum(v for i, _, v in fl if i < ti)
+            if before + tv != init:
+                raise Violation("C04.nothing_lost", f"order {key}: accepted {init}, filled {before} before its {what} at {tt}, which reports {tv} left")
+            late = [(t, v) for i, t, v in fl if i > ti]
+            if late:
+                raise Violation("C04.fill_after_terminal_event", f"order {key} filled {late} after its {what} at time {tt}")
+            if before > 0:
+                stats[f"partial_then_{what}"] += 1
+        else:
+            if init - filled != o.volume:
+                raise Violation("C04.nothing_lost", f"order {key}: accepted {init}, filled {filled}, object reports {o.volume} left")
+            rests = o.volume > 0 and (o.ttl is None or o.placed_at + o.ttl >= final_t)
+            if o.volume > 0 and not rests:
+                raise Violation("C04.expired_order_without_record", f"order {key} (accepted {o.placed_at}, ttl {o.ttl}) has {o.volume} left at the final time {final_t} "
+                                                                    f"but neither a cancel nor an expiry was reported")
+        if o.ttl is not None:
+            for i, t, v in fl:
+                if t > o.placed_at + o.ttl:
+                    raise Violation("C04.fill_after_expiry", f"order {key} (accepted {o.placed_at}, ttl {o.ttl}) filled at time {t}")
+                if t == o.placed_at + o.ttl:
+                    stats["filled_in_last_step_of_life"] += 1
+    # the books at the end hold exactly the orders that should still rest
+    for m in A.sim.markets:
+        for is_buy, depth in ((True, m.get_buy_order_book()), (False, m.get_sell_order_book())):
+            want = collections.Counter()
+            for o, snap, _ in A.returned_orders:
+                if o.market_id == m.market_id and o.is_buy == is_buy and o.volume > 0 and (m.market_id, o.order_id) not in first_terminal:
+                    want[o.price] += o.volume
+            if dict(depth) != dict(want):
+                raise Violation("C04.final_book", f"market {m.name} {'buy' if is_buy else 'sell'} book at the end {dict(depth)}, surviving orders imply {dict(want)}")
+            if any(v <= 0 for v in depth.values()):
+                raise Violation("C04.resting_volume_positive", f"{dict(depth)}")
+    stats["orders"] = len(A.returned_orders)
+    stats["fills"] = len(A.fills)
+    return dict(stats)
